@@ -23,6 +23,7 @@ import (
 	"ariga.io/atlas/sql/schema"
 	"ariga.io/atlas/sql/sqlite"
 	"ariga.io/atlas/verifmap"
+	"github.com/hashicorp/hcl/v2/hclparse"
 	"github.com/zclconf/go-cty/cty"
 
 	_ "github.com/mattn/go-sqlite3"
@@ -37,6 +38,7 @@ type dialect struct {
 	plan    migrate.PlanApplier
 	marshal func(any) ([]byte, error)
 	eval    func([]byte, any, map[string]cty.Value) error
+	evalP   func(*hclparse.Parser, any, map[string]cty.Value) error
 	intT    func() schema.Type
 	textT   func() schema.Type
 	boolT   func() schema.Type
@@ -44,11 +46,11 @@ type dialect struct {
 }
 
 var dialects = []dialect{
-	{name: "sqlite", diff: sqlite.DefaultDiff, plan: sqlite.DefaultPlan, marshal: sqlite.MarshalHCL.MarshalSpec, eval: sqlite.EvalHCLBytes, schema: "main",
+	{name: "sqlite", diff: sqlite.DefaultDiff, plan: sqlite.DefaultPlan, marshal: sqlite.MarshalHCL.MarshalSpec, eval: sqlite.EvalHCLBytes, evalP: sqlite.EvalHCL.Eval, schema: "main",
 		intT: func() schema.Type { return &schema.IntegerType{T: "integer"} }, textT: func() schema.Type { return &schema.StringType{T: "text"} }, boolT: func() schema.Type { return &schema.BoolType{T: "boolean"} }},
-	{name: "mysql", diff: mysql.DefaultDiff, plan: mysql.DefaultPlan, marshal: mysql.MarshalHCL.MarshalSpec, eval: mysql.EvalHCLBytes, schema: "app",
+	{name: "mysql", diff: mysql.DefaultDiff, plan: mysql.DefaultPlan, marshal: mysql.MarshalHCL.MarshalSpec, eval: mysql.EvalHCLBytes, evalP: mysql.EvalHCL.Eval, schema: "app",
 		intT: func() schema.Type { return &schema.IntegerType{T: "int"} }, textT: func() schema.Type { return &schema.StringType{T: "varchar", Size: 255} }, boolT: func() schema.Type { return &schema.BoolType{T: "bool"} }},
-	{name: "postgres", diff: postgres.DefaultDiff, plan: postgres.DefaultPlan, marshal: postgres.MarshalHCL.MarshalSpec, eval: postgres.EvalHCLBytes, schema: "public",
+	{name: "postgres", diff: postgres.DefaultDiff, plan: postgres.DefaultPlan, marshal: postgres.MarshalHCL.MarshalSpec, eval: postgres.EvalHCLBytes, evalP: postgres.EvalHCL.Eval, schema: "public",
 		intT: func() schema.Type { return &schema.IntegerType{T: "integer"} }, textT: func() schema.Type { return &schema.StringType{T: "character varying", Size: 255} }, boolT: func() schema.Type { return &schema.BoolType{T: "boolean"} }},
 }
 
@@ -316,6 +318,55 @@ func hclOp(d dialect, a dsch) *op {
 	return o
 }
 
+// splitBlocks cuts a marshalled HCL document into its top-level blocks.
+func splitBlocks(doc string) []string {
+	var out []string
+	var cur []string
+	for _, l := range strings.Split(doc, "\n") {
+		cur = append(cur, l)
+		if l == "}" {
+			out = append(out, strings.Join(cur, "\n")+"\n")
+			cur = nil
+		}
+	}
+	return out
+}
+
+// hclFilesOp evaluates the schema from several HCL files that share one base name in different
+// directories (the way a project split by component looks) and marshals the result.
+func hclFilesOp(d dialect, a dsch) *op {
+	o := &op{name: "hcl-files/" + d.name}
+	parser := hclparse.NewParser()
+	o.steps = []func() error{
+		func() error {
+			doc, err := d.marshal(build(d, a, nil))
+			if err != nil {
+				return err
+			}
+			for i, b := range splitBlocks(string(doc)) {
+				name := fmt.Sprintf("/project/c%02d/schema.hcl", i)
+				if _, diag := parser.ParseHCL([]byte(b), name); diag.HasErrors() {
+					return fmt.Errorf("parse %s: %s", name, diag.Error())
+				}
+			}
+			return nil
+		},
+		func() error {
+			var r schema.Realm
+			if err := d.evalP(parser, &r, nil); err != nil {
+				return fmt.Errorf("eval files: %w", err)
+			}
+			out, err := d.marshal(&r)
+			if err != nil {
+				return err
+			}
+			o.out = out
+			return nil
+		},
+	}
+	return o
+}
+
 func sumOp(files map[string]string) *op {
 	o := &op{name: "dir-sum"}
 	dir := &migrate.MemDir{}
@@ -385,7 +436,7 @@ func genScenario(t *simkit.Tape) scenario {
 func (sc scenario) ops(perm func(int) []int) []*op {
 	var out []*op
 	for _, d := range dialects {
-		out = append(out, planOp(d, sc.a, sc.b, perm), hclOp(d, sc.a))
+		out = append(out, planOp(d, sc.a, sc.b, perm), hclOp(d, sc.a), hclFilesOp(d, sc.a))
 	}
 	return append(out, sumOp(sc.files))
 }
